@@ -4,7 +4,7 @@ from __future__ import annotations
 from .common import FAIL, OK, STUBS_COMMON, Harness, P, guard, run
 from .rhist import T0, T1, Alphabet, decode, max_options, run_history
 
-from asphalt.core import Context, ResourceConflict  # noqa: E402
+from asphalt.core import AsyncResourceError, Context, ResourceConflict  # noqa: E402
 import asphalt.core._context as _ctxmod  # noqa: E402
 
 ALPHA = Alphabet(
@@ -186,13 +186,14 @@ from .rhist import Val  # noqa: E402
 
 def addrace_params(tier):
     S = 5 if tier == "quick" else 8
-    return [P("fsteps", 0, 2), P("delay", 0, 3), P("api", 0, 1)] + [P(f"s{i}", 0, 3) for i in range(S)]
+    return [P("fsteps", 0, 4), P("delay", 0, 3), P("api", 0, 1)] + [P(f"s{i}", 0, 3) for i in range(S)]
 
 
-@guard
-def addrace_fn(a, tier):
+def _addrace(a, tier, prop="C03"):
     S = 5 if tier == "quick" else 8
-    fsteps, delay, api = pick(a["fsteps"], 3), pick(a["delay"], 4), pick(a["api"], 2)
+    fsteps, delay, api = pick(a["fsteps"], 5), pick(a["delay"], 4), pick(a["api"], 2)
+    # fsteps 3 / 4: no second task - a SYNCHRONOUS factory itself publishes the static T1 while it runs under get_resource_nowait / get_resource
+    reentrant = max(0, fsteps - 2)
     tape = Tape([a[f"s{i}"] for i in range(S)])
     seen = {}
 
@@ -203,8 +204,22 @@ def addrace_fn(a, tier):
 
     async def main():
         async with Context() as ctx:
-            ctx.add_resource_factory(factory, "x", types=[T0, T1])
             static = Val("static")
+            if reentrant:
+
+                def sfactory():
+                    try:
+                        ctx.add_resource(static, "x", types=[T1])
+                        seen["added"] = True
+                    except ResourceConflict:
+                        seen["added"] = False
+                    return Val("generated")
+
+                ctx.add_resource_factory(sfactory, "x", types=[T0, T1])
+                seen["gen"] = ctx.get_resource_nowait(T0, "x") if reentrant == 1 else await ctx.get_resource(T0, "x")
+                seen["first_T1"] = ctx.get_resource_nowait(T1, "x")
+            else:
+                ctx.add_resource_factory(factory, "x", types=[T0, T1])
 
             async def getter():
                 seen["gen"] = await ctx.get_resource(T0, "x") if api == 0 else await ctx.get_resource(T1, "x")
@@ -219,18 +234,31 @@ def addrace_fn(a, tier):
                     seen["added"] = False
                 seen["first_T1"] = ctx.get_resource_nowait(T1, "x") if (seen["added"] or "gen" in seen) else None
 
-            async with anyio.create_task_group() as tg:
-                tg.start_soon(getter)
-                tg.start_soon(adder)
+            if not reentrant:
+                async with anyio.create_task_group() as tg:
+                    tg.start_soon(getter)
+                    tg.start_soon(adder)
             seen["later_T1"] = [ctx.get_resource_nowait(T1, "x"), await ctx.get_resource(T1, "x"), ctx.get_resources(T1).get("x")]
             seen["later_T0"] = await ctx.get_resource(T0, "x")
             seen["static"] = static
+            async with Context() as child:
+                seen["child_all"] = dict(child.get_resources(T1))
+                try:
+                    seen["child_nowait"] = child.get_resource_nowait(T1, "x")
+                except AsyncResourceError as e:
+                    seen["child_nowait"] = e
 
     _, exc, _k = run(main, chooser=tape)
-    summary = {"factory_checkpoints": fsteps, "adder_delay": delay, "getter_type": ["T0", "T1"][api], "schedule": tape.taken,
+    summary = {"factory": ["async, %d checkpoints" % fsteps, "sync, adds the static T1 itself while running under get_resource_nowait(T0)",
+                           "sync, adds the static T1 itself while running under await get_resource(T0)"][reentrant], "adder_delay": delay, "getter_type": ["T0", "T1"][api], "schedule": tape.taken,
                "static_add_succeeded": seen.get("added")}
     if exc is not None:
         return FAIL(f"addrace:raised:{type(exc).__name__}", repr(exc), summary)
+    if prop == "C02" and seen["added"]:
+        # a static resource that was successfully added is inherited by a child created afterwards, on every lookup path
+        if seen["child_all"] != {"x": seen["static"]} or seen["child_nowait"] is not seen["static"]:
+            return FAIL("addrace:child-does-not-inherit-the-static-resource-added-during-a-generation",
+                        f"child.get_resources={seen['child_all']!r} child.get_resource_nowait={seen['child_nowait']!r}", summary)
     first = seen.get("first_T1")
     if seen["added"] and first is not seen["static"]:
         return FAIL("addrace:static-not-returned-after-successful-add", repr(first), summary)
@@ -241,6 +269,11 @@ def addrace_fn(a, tier):
     return OK(summary, True)
 
 
+@guard
+def addrace_fn(a, tier):
+    return _addrace(a, tier, "C03")
+
+
 ADDRACE = Harness(
     prop="C03",
     name="G-addrace",
@@ -249,7 +282,8 @@ ADDRACE = Harness(
     cube=lambda tier: 3,
     title="a static add_resource racing with an in-flight async multi-type generation",
     bound_text=lambda tier: f"async factory for (T0,T1) awaiting 0-2 checkpoints; one task awaits get_resource(T0|T1), another adds a static T1 after 0-3 "
-    f"checkpoints and looks it up; first {5 if tier == 'quick' else 8} scheduling decisions arbitrary",
+    f"checkpoints and looks it up; first {5 if tier == 'quick' else 8} scheduling decisions arbitrary; plus the re-entrant variants: a synchronous (T0,T1) "
+    "factory that publishes the static T1 itself while it runs under get_resource_nowait(T0) / await get_resource(T0)",
     oracle="whatever (T1,'x') first resolved to is what every later lookup path returns; a successful add is what lookups return; the generated "
     "object stays available under its free type",
     outside="more tasks; factories that raise",
@@ -263,18 +297,17 @@ from . import c04 as _c04  # noqa: E402
 
 
 def retry_params(tier):
-    return [p for p in _c04.race_params(tier) if p.name != "failfirst"]
+    return [p for p in _c04.race_params(tier) if p.name != "failfirst"] + [P("abandon", 0, 1)]
 
 
 @guard
 def retry_fn(a, tier):
-    a = dict(a)
-    a["failfirst"] = 1
-    res = _c04.race_fn.__wrapped__(a, tier) if hasattr(_c04.race_fn, "__wrapped__") else _c04.race_fn(a, tier)
+    res = _c04._race(a, tier, 1 + pick(a["abandon"], 2))
     if res.ok:
         return res
-    # C03's clause: one resource per pair, every lookup returns the same object
-    if res.sig.startswith(("race:different-objects", "race:lookup-failed", "unexpected-exception")):
+    # C03's clause: one resource per pair, every lookup returns the same object - read as a total-correctness statement: a
+    # lookup of a resolvable pair that never returns (a waiter left behind an abandoned generation) does not "return that same object"
+    if res.sig.startswith(("race:different-objects", "race:lookup-failed", "unexpected-exception", "did-not-finish")):
         return res
     return OK(res.summary, nontrivial=False)
 
@@ -286,7 +319,7 @@ RETRY = Harness(
     params=retry_params,
     cube=lambda tier: 5 if tier == "quick" else 6,
     title="several tasks waiting behind a generation that fails: the retry must still yield ONE object for the pair",
-    bound_text=lambda tier: "as C04 G-race with the first generation attempt raising (3 tasks in the quick tier)",
+    bound_text=lambda tier: "as C04 G-race with the first generation attempt raising, or its requester cancelled while the factory is awaited (3 tasks in the quick tier)",
     oracle="every successful lookup of the pair (racing or later) returns the same object; no lookup of an available resource fails",
     outside="as C04 G-race",
     stubs=STUBS_COMMON,
